@@ -60,11 +60,25 @@ def creation_specs():
     for cond, msg, els, just, delay, rep in itertools.product(
             conds, RENDER, RENDER, [False, True], [False, True], ['main', 'other']):
         out.append({'cond': cond, 'msg': msg, 'else': els, 'just_raises': just, 'delay': delay, 'report': rep})
+    # the activate keyword: it decides the outcome of a class WITHOUT its own condition and plays no part for one with its own
+    for cond, msg, els, delay in itertools.product(conds, RENDER, RENDER, [False, True]):
+        out.append({'cond': cond, 'msg': msg, 'else': els, 'just_raises': False, 'delay': delay, 'report': 'main', 'activate': False})
+    for act, msg, els, delay, rep in itertools.product([True, False, None], RENDER, RENDER, [False, True], ['main', 'other']):
+        out.append({'cond': 'default', 'msg': msg, 'else': els, 'just_raises': False, 'delay': delay, 'report': rep, 'activate': act})
     return out
 
 
+def outcome(s):
+    """what the condition of the spec evaluates to (None: it raises)"""
+    if s['cond'] == 'raises':
+        return None
+    if s['cond'] == 'default':
+        return s.get('activate') is not False
+    return s['cond'] in ('True', '1', 'str', 'list')
+
+
 def coq_spec(s):
-    c = 'CRaises' if s['cond'] == 'raises' else ('CTruthy' if s['cond'] in ('True', '1', 'str', 'list') else 'CFalsy')
+    c = {None: 'CRaises', True: 'CTruthy', False: 'CFalsy'}[outcome(s)]
     return '(mkSpec %s %s %s %s %s %s)' % (cbool(s['delay']), c, cbool(s['just_raises']), RENDER[s['msg']], RENDER[s['else']],
                                            cbool(s['report'] != 'none'))
 
@@ -73,7 +87,7 @@ def oracle_creation(s, r):
     """C20 stated directly on the real object."""
     if r.get('lost'):
         return None
-    truthy = s['cond'] in ('True', '1', 'str', 'list')
+    truthy = outcome(s) is True
     snap = r['after_handle'] if s['delay'] else r['after_init']
     raised = r['raised_on_handle'] if s['delay'] else r['raised']
     if s['delay']:
@@ -119,6 +133,8 @@ def correspondence(ctx):
     pool = ['A!', 'B!', None, True, 'zz', 'high']
     hists = [[['override', 1, [[0, 'A!']]], ['override', 2, [[0, 'B!']]], ['clear']],   # the known shape
              [['override', 1, [[0, 'A!']]], ['override', 1, [[0, 'B!']]], ['clear']],
+             [['override', 2, [[0, 'A!']]], ['override', 4, [[0, 'B!']]], ['clear']],     # two classes of one name
+             [['override', 4, [[3, False]], 1], ['override', 2, [[1, 'zz']], 1], ['contextualize', 1]],
              [['override', 3, [[0, 'x'], [2, 'high']]], ['contextualize'], ['override', 3, [[0, 'y']]], ['clear']],
              # several reports (an override names its report as 4th item, a clear as 2nd; 0 = MAIN_REPORT)
              [['override', 1, [[0, 'A!']], 0], ['override', 1, [[0, 'B!']], 1], ['clear', 1], ['clear', 0]],
